@@ -235,7 +235,103 @@ func pairsScenario(c pcfg) *mcx.Scenario {
 	}
 }
 
+// A peer that acknowledges (or resets) a server-initiated confirmable request several times back to back,
+// while another peer is being served: the read loop must survive and the other peer must be answered.
+func dupAckScenario(kind message.Type, copies int) *mcx.Scenario {
+	name := fmt.Sprintf("udp-server with a confirmable request outstanding to a peer that sends %d copies of its %v back to back", copies, kind)
+	return &mcx.Scenario{
+		Name:   name,
+		Bounds: mcx.Bounds{Preempt: 1, Env: -1, Select: 0, Delay: 1},
+		Opt:    vrt.Options{MaxSteps: 600000},
+		Body: func(s *vrt.Sched) func() (string, []mcx.Finding) {
+			var fs []mcx.Finding
+			fail := func(sig, format string, a ...any) {
+				fs = append(fs, mcx.Finding{Sig: sig, What: name + ": " + fmt.Sprintf(format, a...)})
+			}
+			var u *srvw.UDP
+			doReturned := false
+			vrt.App("env", func() {
+				handled := 0
+				u = srvw.NewUDP(srvw.UDPOpts{Handler: func(w *responsewriter.ResponseWriter[*client.Conn], r *pool.Message) {
+					if r.Code() != codes.GET {
+						return // (a surplus copy of the Reset reaches the application handler as an unmatched message: nothing to answer)
+					}
+					handled++
+					_ = w.SetResponse(codes.Content, message.TextPlain, nil)
+				}})
+				P := &net.UDPAddr{IP: net.IPv4(10, 0, 0, 11), Port: 40001}
+				Q := &net.UDPAddr{IP: net.IPv4(10, 0, 0, 12), Port: 40001}
+				vrt.Quiesce("env: server up")
+				cc, err := u.S.NewConn(P)
+				if err != nil {
+					fail("ENGINE/setup", "NewConn failed: %v", err)
+					return
+				}
+				vrt.App("server-request", func() {
+					ctx, cancel := vrt.WithTimeout(context.Background(), 10*time.Second)
+					defer cancel()
+					r := cc.AcquireMessage(ctx)
+					_ = r.SetupGet("/from-server", message.Token{0xA7})
+					r.SetType(message.Confirmable)
+					resp, errD := cc.Do(r)
+					if errD == nil {
+						cc.ReleaseMessage(resp)
+					}
+					doReturned = true
+				})
+				vrt.Quiesce("env: request on the wire")
+				var mid int32 = -1
+				for _, o := range u.NewOuts() {
+					if m, errM := srvw.DecodeUDP(o.Data); errM == nil && m.Type == message.Confirmable && m.Code == codes.GET {
+						mid = m.MessageID
+					}
+				}
+				if mid < 0 {
+					fail("ENGINE/setup", "the server-initiated request was not written")
+					return
+				}
+				for i := 0; i < copies; i++ {
+					u.Send(P, srvw.EncodeUDP(message.Message{Type: kind, Code: codes.Empty, MessageID: mid}))
+				}
+				u.Send(Q, srvw.EncodeUDP(message.Message{Type: message.Confirmable, Code: codes.GET, MessageID: 77, Token: message.Token{0x77}, Options: message.Options{{ID: message.URIPath, Value: []byte("x")}}}))
+				vrt.Quiesce("env: datagrams handled")
+				if u.ServeDone {
+					fail("serve-returned", "Serve returned (%v) although the server was not stopped", u.ServeErr)
+				}
+				answered := false
+				for _, o := range u.NewOuts() {
+					if o.To.String() == Q.String() {
+						answered = true
+					}
+				}
+				if !answered || handled != 1 {
+					fail("server-stopped-answering", "the request of the other peer was handled %d times, answered=%v", handled, answered)
+				}
+				vrt.Advance(11 * time.Second)
+				if u.Tick != nil {
+					u.Tick(vrt.Now())
+				}
+				vrt.Quiesce("env: end")
+				if !doReturned {
+					fail("server-request-never-returned", "the server-initiated request did not return after its deadline")
+				}
+				u.S.Stop()
+				vrt.Quiesce("env: stopped")
+			})
+			return func() (string, []mcx.Finding) {
+				if u != nil {
+					u.Cleanup()
+				}
+				return fmt.Sprint(doReturned), fs
+			}
+		},
+	}
+}
+
 func addPairs(r *ev.Run, scs *[]*mcx.Scenario) {
+	for _, k := range []message.Type{message.Acknowledgement, message.Reset} {
+		*scs = append(*scs, dupAckScenario(k, 2), dupAckScenario(k, 3))
+	}
 	*scs = append(*scs, pairsScenario(pcfg{Depth: 4}))
 	if r.Thorough() {
 		*scs = append(*scs, pairsScenario(pcfg{Depth: 5, Delay: 1}))
